@@ -56,9 +56,21 @@ for diff in sorted(glob.glob(os.path.join(wt, 'mutants', 'm*.diff'))):
         rec['error'] = 'diff does not apply: ' + o; out.append(rec); continue
     rc, o = sh('go build ./...')
     rec['builds'] = (rc == 0)
-    rc, o = sh('go test -vet=off -count=1 -timeout 1200s ' + ' '.join(pkgs))
-    rec['existing_tests_pass'] = (rc == 0)
-    if rc != 0: rec['existing_tests_out'] = o[-800:]
+    # the whole existing suite (the scratch mutants/ directory is not a package of the repository);
+    # packages that fail are re-run once on their own (timing-sensitive tests under load)
+    rc, o = sh("go test -vet=off -count=1 -timeout 1500s $(go list ./... | grep -v /mutants) 2>&1 | grep -v '^ok\\|no test files'", timeout=3000)
+    failed = sorted(set(re.findall(r'^(?:FAIL|---)\s+(github.com/glyphlang/glyph/\S+)', o, re.M)) | set(re.findall(r'^FAIL\s+(github.com/glyphlang/glyph\S*)', o, re.M)))
+    rec['full_suite_first_run_failed_pkgs'] = failed
+    ok_all = True
+    if 'FAIL' in o or 'panic' in o:
+        ok_all = bool(failed)
+        for fp in failed:
+            rc2, o2 = sh(f'go test -vet=off -count=1 -timeout 900s {fp}')
+            if rc2 != 0:
+                ok_all = False
+                rec['existing_tests_out'] = o2[-800:]
+    rec['existing_tests_pass'] = ok_all
+    rec['existing_tests_scope'] = 'go test -vet=off -count=1 ./... (whole suite; failing packages re-run once)'
     shutil.copy(demo, target)
     rc, o = sh(f'go test -vet=off -count=1 -timeout 300s ./{pd}/')
     rec['demo_fails_mutated'] = (rc != 0)
